@@ -136,3 +136,98 @@ func vInstallSnapshot(w int, faults bool) {
 	}
 	vReach("install.end")
 }
+
+// vh_take_snapshot: takeSnapshot run together with the real FSM goroutine and
+// the real follower main loop (which answers the configurations request).
+// C11.TAKE-SNAPSHOT.
+func vh_take_snapshot() {
+	w := 2
+	r, env := vNewRaft("a", vRaftOpts{n: 1, w: w, shaped: true})
+	s := env.logs
+	vShapeCommit(r, "a", w)
+	vAssume(vInvBasic(r, env))
+	vAssume(vInvLog(r, env, w))
+	r.state = Follower
+	fsm := &mSnapFSM{snapFail: vChoose("snapFail", 0, 1) == 1, persistFail: vChoose("persistFail", 0, 1) == 1}
+	r.fsm = fsm
+	env.snaps.failOn = true
+	r.configurations.committedIndex = vU64("committedIndex")
+	vAssume(r.configurations.committedIndex <= r.configurations.latestIndex)
+	// the FSM goroutine has applied up to lastApplied: feed it that entry so that its (lastIndex, lastTerm) are set
+	applied := r.lastApplied
+	hasApplied := s.has(applied)
+	var fsmIdx, fsmTerm uint64
+	if hasApplied {
+		fsmIdx, fsmTerm = applied, s.term.Get(applied)
+		r.fsmMutateCh <- []*commitTuple{{&Log{Index: applied, Term: fsmTerm, Type: LogCommand}, nil}}
+	}
+	cfg := r.conf.Load().(Config)
+	cfg.TrailingLogs = uint64(vChoose("trailing", 0, 2))
+	r.conf.Store(cfg)
+	vGo(r.runFSM)
+	vGo(r.runFollower)
+	vTimerMode(0)
+	pre := vSnap(r, env)
+	preStore := s.clone()
+	preCommitted := r.configurations.committed.Clone()
+	preCommittedIndex := r.configurations.committedIndex
+	vAssertNoPanic("C11.snapshot.no-panic")
+	id, err := r.takeSnapshot()
+	post := vSnap(r, env)
+	created, closedOK, canceled := false, false, false
+	var ci, ct uint64
+	order := 0
+	closeAt, deleteAt := -1, -1
+	for i, c := range env.snaps.calls {
+		switch c.op {
+		case opSnapCreate:
+			created, ci, ct = c.ok, c.a, c.b
+		case opSnapClose:
+			if c.ok {
+				closedOK = true
+				closeAt = i
+			}
+		case opSnapCancel:
+			canceled = true
+		}
+		order = i
+	}
+	_ = order
+	for i, c := range s.calls[len(preStore.calls):] {
+		if c.op == opDeleteRange {
+			deleteAt = i
+		}
+	}
+	if !hasApplied {
+		vCover("snapshot.nothing-applied")
+		vAssert(err != nil && !created, "C11.snapshot.nothing-to-snapshot")
+	}
+	if err == nil {
+		vCover("snapshot.taken")
+		vAssert(created && closedOK && !canceled, "C11.snapshot.durable-before-success")
+		vAssert(ci == fsmIdx && ct == fsmTerm, "C11.snapshot.stamped-with-fsm-position")
+		sink := env.snaps.sinks[len(env.snaps.sinks)-1]
+		vAssert(vSameServers(sink.meta.Configuration.Servers, preCommitted.Servers) && sink.meta.ConfigurationIndex == preCommittedIndex, "C11.snapshot.carries-committed-configuration")
+		vAssert(preCommittedIndex <= fsmIdx, "C11.snapshot.refused-before-config-applied")
+		vAssert(post.snapIdx == fsmIdx && post.snapTerm == fsmTerm, "C11.snapshot.last-snapshot-moves")
+		vAssert(id == sink.meta.ID, "C11.snapshot.returns-id")
+		base := vBase()
+		for k := 1; k <= w; k++ {
+			idx := base + uint64(k)
+			vAssert(vImplies(vAnd(preStore.has(idx), idx > fsmIdx), s.has(idx)), "C11.snapshot.compaction-keeps-above-snapshot")
+		}
+		vAssert(fsm.snaps[0].released, "C11.snapshot.released")
+		_ = closeAt
+		_ = deleteAt
+	} else {
+		vCover("snapshot.failed")
+		// a failed attempt moves nothing and deletes nothing; a created sink is cancelled unless its Close itself failed
+		vAssert(post.snapIdx == pre.snapIdx && post.snapTerm == pre.snapTerm, "C11.snapshot.failure-keeps-last-snapshot")
+		vAssert(deleteAt < 0 || closedOK, "C11.snapshot.failure-deletes-nothing")
+		if fsm.persistFail && created {
+			vAssert(canceled, "C11.snapshot.persist-failure-cancels")
+		}
+	}
+	vAssert(post.applied == pre.applied && post.commit == pre.commit && post.term == pre.term, "C11.snapshot.frame")
+	vReach("snapshot.end")
+}
